@@ -593,6 +593,25 @@ pub fn mk_arc_raw(size: usize, hmode: u64) -> comp::ArcSubj {
 
 const RATIOS: [f64; 7] = [0.0, 0.25, 0.5, 1.0, 1.0 / 3.0, 0.75, 0.1];
 
+/// the same caches through the plain constructors (`new`, `with_recent_ratio`, `with_ghost_ratio`,
+/// `with_2q_parameters`), which install the default hash builder: what a user who names no builder gets
+pub fn mk_slru_plain(pc: usize, fc: usize) -> Box<dyn Subject> {
+    Box::new(comp::SlruSubj { c: caches::SegmentedCache::<TKey, TVal>::new(pc, fc).unwrap() })
+}
+pub fn mk_twoq_plain(size: usize, rri: usize, gri: usize) -> Box<dyn Subject> {
+    let c = match (rri, gri) {
+        (1, 2) => caches::TwoQueueCache::<TKey, TVal>::new(size),
+        (_, 2) => caches::TwoQueueCache::<TKey, TVal>::with_recent_ratio(size, RATIOS[rri]),
+        (1, _) => caches::TwoQueueCache::<TKey, TVal>::with_ghost_ratio(size, RATIOS[gri]),
+        _ => caches::TwoQueueCache::<TKey, TVal>::with_2q_parameters(size, RATIOS[rri], RATIOS[gri]),
+    }
+    .unwrap();
+    Box::new(comp::TwoQSubj { c })
+}
+pub fn mk_arc_plain(size: usize) -> Box<dyn Subject> {
+    Box::new(comp::ArcSubj { c: caches::AdaptiveCache::<TKey, TVal>::new(size).unwrap() })
+}
+
 /// sub-sizes of a 2Q cache as the constructor computes them (floor(size * ratio))
 pub fn twoq_quotas(size: usize, rr: f64, gr: f64) -> (usize, usize) {
     (((size as f64) * rr).floor() as usize, ((size as f64) * gr).floor() as usize)
@@ -606,6 +625,10 @@ fn slice_comp(a: &Args, t: &mut Trace, which: u32) {
         }
         let mut r = rng_for(a.seed, stream + 1_000_000 * which as u64);
         let hmode = r.below(5);
+        // one history in four runs on a cache built by a plain constructor (default hash builder) instead of
+        // the builder; inside a hasher group the members differ in the hasher only ...
+        // ... inside one the first member (a RandomState like the default) is the cache a plain constructor builds
+        let via = if hforce == Some(0) || (hforce.is_none() && r.chance(1, 4)) { 1 } else { 0 };
         let hmode = hforce.unwrap_or(hmode);
         let len = r.range(a.len / 4 + 1, a.len) as usize;
         let mut vg = gen::ValGen(1000);
@@ -616,8 +639,8 @@ fn slice_comp(a: &Args, t: &mut Trace, which: u32) {
                 let mut kg = gen::KeyGen::new(pc + fc + 3);
                 let cfg = [pc as i128, fc as i128];
                 let id = format!("slru-s{}-i{}", a.seed, i);
-                let meta = format!("hasher={}", hmode);
-                run_case(t, &id, 1, &cfg, &meta, &|| mk_slru(pc as usize, fc as usize, hmode),
+                let meta = format!("hasher={} via={}", hmode, via);
+                run_case(t, &id, 1, &cfg, &meta, &|| if via == 1 { mk_slru_plain(pc as usize, fc as usize) } else { mk_slru(pc as usize, fc as usize, hmode) },
                     &mut |step, snap| if step >= len { None } else { Some(gen::slru_op(&mut r, &mut kg, &mut vg, snap)) },
                     &tag);
             }
@@ -639,8 +662,8 @@ fn slice_comp(a: &Args, t: &mut Trace, which: u32) {
                 let mut kg = gen::KeyGen::new(size as u64 + es as u64 + 3);
                 let cfg = [size as i128, rs as i128, es as i128];
                 let id = format!("twoq-s{}-i{}", a.seed, i);
-                let meta = format!("hasher={} rri={} gri={}", hmode, rri, gri);
-                run_case(t, &id, 2, &cfg, &meta, &|| mk_twoq(size, RATIOS[rri], RATIOS[gri], hmode),
+                let meta = format!("hasher={} rri={} gri={} via={}", hmode, rri, gri, via);
+                run_case(t, &id, 2, &cfg, &meta, &|| if via == 1 { mk_twoq_plain(size, rri, gri) } else { mk_twoq(size, RATIOS[rri], RATIOS[gri], hmode) },
                     &mut |step, snap| if step >= len { None } else { Some(gen::twoq_op(&mut r, &mut kg, &mut vg, snap)) },
                     &tag);
             }
@@ -649,8 +672,8 @@ fn slice_comp(a: &Args, t: &mut Trace, which: u32) {
                 let mut kg = gen::KeyGen::new(2 * size as u64 + 3);
                 let cfg = [size as i128];
                 let id = format!("arc-s{}-i{}", a.seed, i);
-                let meta = format!("hasher={}", hmode);
-                run_case(t, &id, 3, &cfg, &meta, &|| mk_arc(size, hmode),
+                let meta = format!("hasher={} via={}", hmode, via);
+                run_case(t, &id, 3, &cfg, &meta, &|| if via == 1 { mk_arc_plain(size) } else { mk_arc(size, hmode) },
                     &mut |step, snap| if step >= len { None } else { Some(gen::arc_op(&mut r, &mut kg, &mut vg, snap)) },
                     &tag);
             }
@@ -783,6 +806,85 @@ fn slice_lru_bfs(a: &Args, t: &mut Trace) {
     }
 }
 
+/// breadth-first closure of the reachable states of small SegmentedCache / TwoQueueCache / AdaptiveCache
+/// configurations (capacities 1 and 2, a key range two larger than everything the cache can remember): every
+/// operation of the alphabet in every state reached, so the states a random history only meets by chance - a
+/// cache whose residents are all gone while its ghost lists are not, a full segment of capacity 1, the first
+/// call after purge - are all there.  `--n` bounds the sizes, `--len` the number of states per configuration.
+fn slice_comp_bfs(a: &Args, t: &mut Trace) {
+    let base = |nk: i128| -> Vec<Ints> {
+        let mut al: Vec<Ints> = Vec::new();
+        for k in 0..nk {
+            al.push(vec![0, k, 10 * k + 1]);
+            al.push(vec![1, k]);
+            al.push(vec![6, k]);
+        }
+        al.push(vec![0, 0, 2]);
+        al.push(vec![2, 0, 1, 7]);
+        al.push(vec![2, 1, 0, 0]);
+        al.push(vec![3, 0]);
+        al.push(vec![3, 1]);
+        al.push(vec![4, 0, 1, 9]);
+        al.push(vec![4, 1, 0, 0]);
+        al.push(vec![5, 0]);
+        al.push(vec![5, 1]);
+        al.push(vec![7]);
+        al.push(vec![8]);
+        al.push(vec![9]);
+        al.push(vec![10]);
+        al
+    };
+    let max_states = a.len as usize;
+    let top = a.n.max(1).min(3);
+    // SegmentedCache
+    for pc in 1..=top.min(2) {
+        for fc in 1..=top.min(2) {
+            let mut al = base((pc + fc + 2) as i128);
+            al.push(vec![30, 0, 5]);
+            al.push(vec![30, 1, 6]);
+            for c in [31i128, 33, 35, 37, 39, 40, 41, 42, 43, 44] {
+                al.push(vec![c]);
+            }
+            al.push(vec![32, 1, 8]);
+            al.push(vec![36, 1, 8]);
+            al.push(vec![25]);
+            let cfg = [pc as i128, fc as i128];
+            let id = format!("slrubfs-{}-{}", pc, fc);
+            let n = bfs(t, &id, 1, &cfg, "hasher=3", &|| mk_slru(pc as usize, fc as usize, 3), &al, max_states, a.shard, &tag);
+            t.count(&format!("bfs_states_slru_{}_{}_{}", pc, fc, n));
+        }
+    }
+    // TwoQueueCache: ratios 0.25 / 0.5 (the defaults), 0.5 / 0.5 and 0.0 / 1.0
+    for size in 1..=top {
+        for (rri, gri) in [(1usize, 2usize), (2, 2), (0, 3)] {
+            let (rs, es) = twoq_quotas(size as usize, RATIOS[rri], RATIOS[gri]);
+            if es == 0 {
+                continue;
+            }
+            let mut al = base((size as usize + es + 2) as i128);
+            for c in [50i128, 51, 52] {
+                al.push(vec![c]);
+            }
+            let cfg = [size as i128, rs as i128, es as i128];
+            let id = format!("twoqbfs-{}-{}-{}", size, rri, gri);
+            let meta = format!("hasher=3 rri={} gri={}", rri, gri);
+            let n = bfs(t, &id, 2, &cfg, &meta, &|| mk_twoq(size as usize, RATIOS[rri], RATIOS[gri], 3), &al, max_states, a.shard, &tag);
+            t.count(&format!("bfs_states_twoq_{}_{}_{}_{}", size, rri, gri, n));
+        }
+    }
+    // AdaptiveCache
+    for size in 1..=top.min(2) {
+        let mut al = base((2 * size + 2) as i128);
+        for c in [70i128, 71, 72, 73, 74] {
+            al.push(vec![c]);
+        }
+        let cfg = [size as i128];
+        let id = format!("arcbfs-{}", size);
+        let n = bfs(t, &id, 3, &cfg, "hasher=3", &|| mk_arc(size as usize, 3), &al, max_states, a.shard, &tag);
+        t.count(&format!("bfs_states_arc_{}_{}", size, n));
+    }
+}
+
 /// build the subject a case line describes: `kind`, `cfg` and the `X` meta line (`key=value` words)
 pub fn mk_subject(kind: u32, cfg: &[i128], meta: &std::collections::HashMap<String, u64>) -> Box<dyn Subject> {
     let m = |k: &str| meta.get(k).cloned().unwrap_or(0);
@@ -791,7 +893,10 @@ pub fn mk_subject(kind: u32, cfg: &[i128], meta: &std::collections::HashMap<Stri
             let ctor = if meta.contains_key("ctor") { m("ctor") } else if cfg[1] != 0 { 3 } else { 1 };
             mk_lru(cfg[0] as usize, ctor, m("hasher"))
         }
+        1 if m("via") == 1 => mk_slru_plain(cfg[0] as usize, cfg[1] as usize),
         1 => mk_slru(cfg[0] as usize, cfg[1] as usize, m("hasher")),
+        2 if m("via") == 1 => mk_twoq_plain(cfg[0] as usize, m("rri") as usize, m("gri") as usize),
+        3 if m("via") == 1 => mk_arc_plain(cfg[0] as usize),
         2 => {
             // find ratios that give the recorded quotas
             let size = cfg[0] as usize;
@@ -1058,6 +1163,7 @@ fn main() {
         "putres" => slice_putres(&a, &mut t),
         "ctor" => slice_ctor(&a, &mut t),
         "lru_bfs" => slice_lru_bfs(&a, &mut t),
+        "comp_bfs" => slice_comp_bfs(&a, &mut t),
         "hlru" => slice_hlru(&a, &mut t),
         "fault" => slice_fault(&a, &mut t),
         "flru" => slice_flru(&a, &mut t),
